@@ -1,5 +1,6 @@
 """C11 (engine CL) - see RULE."""
 from vlib.engines import cl
+from vlib.engines import grp as _grp
 from vlib.engines.base import drive, run_trace
 
 PROP = "C11"
@@ -14,11 +15,24 @@ class Eng(cl.CLEngine):
         return bool(self.nt & NT) or bool(NT & self.labels)
 
 
+class GrpEng(_grp.GRPEngine):
+    """'the stated longer minimum for group joins': JoinGroup/SyncGroup/Heartbeat requests of the real Coordinator against silent or late coordinators"""
+    MACROS = ["netfault", "netfault", "netfault", "joinfault", "rebalance", "stable"]
+    MACRO_ONE_IN = 2
+
+    def nontrivial(self):
+        return "group-request-timed-out" in self.nt
+
+
 def shard(ctx):
+    drive(ctx, GrpEng, ctx.n(16 * 60, 16 * 1500), min_steps=6, max_steps=50, offset=6, props={"C11"})
     drive(ctx, Eng, ctx.n(16 * 250, 16 * 6000), min_steps=8, max_steps=70, props={"C11"})
 
 
 def replay(case, ctx):
+    if isinstance(case, dict) and case.get("engine") == "GRP":
+        run_trace(GrpEng, case, ctx, props={"C11"})
+        return
     run_trace(Eng, case, ctx, props={"C11"})
 
 TECHNIQUE = "stateful property-based testing with a virtual clock owned by the harness: per-request broker behaviour (prompt / late / never) is drawn, timers are fired one at a time, completion times are compared with issue time + timeout"
